@@ -236,6 +236,11 @@ example : parsePattern false [97, 123, 44, 50, 125] = .err ∧ Model.transform (
 /-- Dev `empty_class`: `[]` is an ES5 pattern (matches nothing); Go rejects the unchanged text -/
 example : parsePattern false [91, 93] = .ok (.set false []) ∧ Model.transform (fun _ => false) [91, 93] = .ok [91, 93]
     ∧ parsePattern true [91, 93] = .err := by decide
+/-- Dev `repeat_leading_zero`: `a{01}` is `a` once in ES5; Go reads `{01}` as four literal characters -/
+example : parsePattern false [97, 123, 48, 49, 125] = .ok (.quant (.ch (.lit 97)) (.rep [48, 49]) false) ∧
+    Model.transform (fun _ => false) [97, 123, 48, 49, 125] = .ok [97, 123, 48, 49, 125] ∧
+    parsePattern true [97, 123, 48, 49, 125] =
+      .ok (.seq (.ch (.lit 97)) (.seq (.ch (.lit 123)) (.seq (.ch (.lit 48)) (.seq (.ch (.lit 49)) (.ch (.lit 125)))))) := by decide
 /-- Dev `repeat_limit`: `a{1001}` -/
 example : parsePattern false [97, 123, 49, 48, 48, 49, 125] ≠ .err ∧ parsePattern true [97, 123, 49, 48, 48, 49, 125] = .err := by decide
 end
